@@ -24,7 +24,7 @@ from .. import protocols
 from ..harness import arr, extobj, integer, scalar
 from .. import tq
 from ..interp import State
-from ..terms import T, V, vconst
+from ..terms import T, Term, V, vconst
 
 FLOOR = 40
 MOD = "skmatter.metrics"
@@ -79,7 +79,16 @@ def check(ctx):
         ref = ctx.call_func(I2, s2, f"ref.reconstruction_ref.{refn}", X, Y, *extra, tr, te, sc2, est2)
         ctx.compare("R-SPLITROLE", f"{fn} == reference (roles of train/test, source/target, scaler and estimator history)", N, r, ref, site)
         t = r.term
-        root = t.op == "norm" or (t.op == "comp" and t.args[2].op == "norm")
+        def is_norm(z):
+            # a norm call, or the square root of a sum of squares (diagonal of a Gram matrix D D^T)
+            if z.op == "norm":
+                return True
+            if z.op in ("sqrt", "pow") and isinstance(z.args[0], Term) and z.args[0].op == "diagof":
+                g = z.args[0].args[0]
+                return g.op == "matmul" and (g.args[1] == T("T", g.args[0]) or g.args[0] == T("T", g.args[1]))
+            return False
+
+        root = is_norm(t) or (t.op == "comp" and is_norm(t.args[2]))
         ctx.ob("R-NONNEG", f"{fn} returns row-wise norms", root, repr(t)[:80], site)
         # scaler history: exactly two fits (X_train, Y_train), each before its transforms
         fits = [e for e in I.events if e["kind"] == "mutate-object" and e["method"] == "fit" and tq.has_sym(e["target"].term, "scaler")]
